@@ -77,10 +77,20 @@ class ExcelType:
             raise xlerrors.DivZeroExcelError()
         if base < 0 and exponent != int(exponent):
             raise xlerrors.NumExcelError()
+        if (
+                isinstance(base, int) and isinstance(exponent, int)
+                and exponent > 0
+                and (abs(base).bit_length() - 1) * exponent >= 1024
+        ):
+            # A whole-number result beyond the range of a double: Python
+            # would compute it exactly (taking very long for large powers).
+            raise xlerrors.NumExcelError()
         try:
-            return Number(base ** exponent)
+            result = base ** exponent
+            float(result)
         except OverflowError:
             raise xlerrors.NumExcelError()
+        return Number(result)
 
     def __and__(self, other):
         # Highjacking bitwise "and" to implement logical "and"
